@@ -51,6 +51,33 @@ def norm(s):
     return re.sub(r'\s+', ' ', s or '').strip()
 
 
+def fn_text_of(gen, item, fn_short):
+    """the generated text of one function of an extracted item: from `fn <name>` to the next fn declaration / end of item"""
+    text = '\n'.join(gen.lines[item['gen_lines'][0] - 1:item['gen_lines'][1]])
+    m = re.search(r'\bfn\s+%s\b' % re.escape(fn_short), text)
+    if not m:
+        return text
+    n = re.search(r'\n\s*(?:pub(?:\([^)]*\))?\s+)?(?:(?:open|closed|uninterp)\s+)?(?:spec\s+|proof\s+|exec\s+)?fn\s+\w', text[m.end():])
+    return text[m.start():m.end() + n.start()] if n else text[m.start():]
+
+
+def unannotated_closures(text):
+    """closure expressions that carry no contract (no `-> (name: T)` / requires / ensures after the parameter list).
+    The verifier knows nothing about what such a closure returns, so a proof that has to look through one fails whether or
+    not the code is right.  Returned as normalised `|params| <first 40 chars>` strings (identity across runs)."""
+    out = []
+    text = re.sub(r'//[^\n]*', '', text)
+    for m in re.finditer(r'(?:\bmove\s+)?\|([^|\n]*)\|', text):
+        before = text[:m.start()].rstrip()
+        if not before or not (before[-1] in '(,={;[' or before.endswith('=>') or before.endswith('return')):
+            continue            # `a | b` patterns / bit-or, forall|..| / exists|..| / choose|..| quantifiers
+        after = text[m.end():].lstrip()
+        if after.startswith('->') or after.startswith('requires') or after.startswith('ensures'):
+            continue
+        out.append(norm(m.group(0) + ' ' + after[:40]))
+    return out
+
+
 # ---------------------------------------------------------------------------
 def fn_props_of_unit(gen):
     """map function display name -> set(props), from extraction tags and `// props:` comments"""
@@ -287,6 +314,11 @@ def check_property(prop, reg, args, seed):
     smt_ms = 0.0
     checker_cmds = []
     base_discharged = set(baseline.get(prop, {}).get('discharged', [])) if baseline.get(prop) and not args.rebaseline else None
+    # closures without a contract per function on the unchanged tree (written by --rebaseline); a failing function that has
+    # gained one is believed only with a concrete witness
+    base_closures = baseline.get(prop, {}).get('closures', {}) if baseline.get(prop) and not args.rebaseline else {}
+    base_closures_known = set(baseline.get(prop, {}).get('discharged', [])) if 'closures' in baseline.get(prop, {}) and not args.rebaseline else set()
+    cur_closures = {}
     for u in units:
         if u not in results:
             continue
@@ -338,6 +370,8 @@ def check_property(prop, reg, args, seed):
             ob = {'id': '%s/%s' % (u, key), 'unit': u, 'function': key, 'backend': 'verus+z3', 'ms': round(tv['ms'], 1),
                   'status': 'discharged' if tv['success'] else 'failed', 'kind': 'lemma' if item is None else 'function-contract'}
             if item:
+                cur_closures[ob['id']] = unannotated_closures(fn_text_of(gen, item, key.split('::')[-1]))
+            if item:
                 ob['source'] = '%s:%d-%d' % (item['file'], item['span_lines'][0], item['span_lines'][1])
             obligations.append(ob)
             if not tv['success']:
@@ -375,6 +409,10 @@ def check_property(prop, reg, args, seed):
                         used = [n for n in auto_names if re.search(r'\b%s\b' % re.escape(n), body)]
                         if used or item.get('auto_sliced'):
                             rec['needs_witness'] = 'the function uses item(s) %s that are new in the source file and were sliced without a contract (T9)' % ', '.join(used or auto_names)
+                    if item:
+                        new_cl = [c for c in unannotated_closures(fn_text_of(gen, item, fn_short)) if c not in base_closures.get(ob['id'], [])]
+                        if new_cl and base_closures is not None and ob['id'] in base_closures_known:
+                            rec['needs_witness'] = 'the function now contains closure(s) without a contract that the unchanged tree does not have (%s); the verifier cannot look through them' % '; '.join(new_cl)[:300]
                     if item and any(l['fn'] == fn_short for l in item.get('lost_annotations', [])):
                         rec['needs_witness'] = 'annotation anchor lost in %s: %s' % (fn_short, '; '.join(l['what'] for l in item['lost_annotations'] if l['fn'] == fn_short))
                     kf = next((k for k in known if k['obligation'] == oid and (k['at'] == '*' or k['at'] == at or (k['at'].endswith('...') and at.startswith(k['at'][:-3])))), None)
@@ -433,7 +471,8 @@ def check_property(prop, reg, args, seed):
         tool_limits.append('no obligations generated')
     if args.rebaseline and not violations and not tool_limits:
         baseline[prop] = {'discharged': sorted(o['id'] for o in obligations if o['status'] == 'discharged' and o.get('class', 'proved') == 'proved' and not o['id'].startswith('kani/')),
-                          'ms': {o['id']: o['ms'] for o in obligations if 'ms' in o}}
+                          'ms': {o['id']: o['ms'] for o in obligations if 'ms' in o},
+                          'closures': {k: v for k, v in sorted(cur_closures.items()) if v}}
         os.makedirs(os.path.join(ROOT, 'baseline'), exist_ok=True)
         with open(os.path.join(ROOT, 'baseline', 'baseline.json'), 'w') as f:
             json.dump(baseline, f, indent=1, sort_keys=True)
